@@ -194,10 +194,13 @@ def convertRoundtrip (p : Parts) : NRes :=
 where
   conv (p : Parts) : NRes :=
     match exact p with
-    | .zero => .f64 (signBit p.neg)
-    | .tiny => .f64 (signBit p.neg)
+    | .zero => .f64 (F64.zero p.neg)
+    | .tiny => .f64 (F64.zero p.neg)
     | .huge => .outOfRange
-    | .rat n d => match roundNE64 p.neg n d with
+    | .rat n d =>
+      -- (`exact` never yields a zero denominator; the test keeps kernel reduction from unfolding
+      --  `roundNE64` on open terms — it gets stuck here instead)
+      match (if d == 0 then none else roundNE64 p.neg n d) with
       | some b => .f64 b
       | none => .outOfRange
 
